@@ -15,8 +15,8 @@ EXTENDS Meaning, Json
 CONSTANT CasesFile
 Cases == JsonDeserialize(CasesFile)
 
-VARIABLES gi, ii, ki, done, ctl, ctxs, log, nid, ret, out, evs, eout
-mvars == <<gi, ii, ki, done, ctl, ctxs, log, nid, ret, out, evs, eout>>
+VARIABLES gi, ii, ki, done, ctl, ctxs, log, nid, ret, out, evs, eout, trc
+mvars == <<gi, ii, ki, done, ctl, ctxs, log, nid, ret, out, evs, eout, trc>>
 \* projection of a behaviour on the operations of context.go (what hook H4 logs), cursors 0-based as in Go
 N(i) == ToString(i)
 EvB(c) == <<"b," \o N(c.st.raw - 1) \o "," \o N(c.st.cur)>>
@@ -24,7 +24,6 @@ EvA(b, p) == <<"a," \o N(b.st.raw - 1) \o "," \o N(b.st.cur) \o "," \o N(Len(b.p
 EvS(b, p, commit) == <<"s," \o N(b.st.cur) \o "," \o N(p.st.cur) \o "," \o (IF commit THEN "1" ELSE "0")>>
 EvD(from, to, n) == <<"d," \o N(from - 1) \o "," \o N(to - 1) \o "," \o N(n)>>
 EvP(n) == <<"p," \o N(n)>>
-Emit(e) == evs' = evs \o e
 RECURSIVE JoinEvs(_, _)
 JoinEvs(es, i) == IF i > Len(es) THEN "" ELSE es[i] \o ";" \o JoinEvs(es, i + 1)
 
@@ -61,6 +60,23 @@ StopUpd(p, b, e) == IF b.dd > p.dd THEN [p EXCEPT !.de = b.de, !.dd = b.dd]
                     ELSE p
 Deepest(c, e) == IF c.st.cur >= c.dd THEN e ELSE IF ~c.de.none THEN c.de ELSE e
 LoopLim(n) == [min |-> IF n.mode = "plus" THEN 1 ELSE 0, max |-> IF n.mode = "opt" THEN 1 ELSE G.maxiter]
+
+\* --- the parse trace (participle.Trace): one line per node entered = per Start action: nesting depth, the token ctx.Peek()
+\* returns, the node kind.  Parenthesis-only groups (mode once) are transparent: they print no line and add no depth here (the
+\* harness drops their lines from the recorded trace and re-bases the depths).  A union prints its own line and its
+\* disjunction's.
+\* (a one-element sequence of the case file is not a node of the real grammar either)
+Transparent(n) == (n.op = "grp" /\ n.mode = "once") \/ (n.op = "seq" /\ Len(n.kids) = 1)
+W(f) == IF Transparent(f.n) THEN 0 ELSE IF f.n.op = "union" THEN 2 ELSE 1
+RECURSIVE SumW(_, _)
+SumW(s, i) == IF i = 0 THEN 0 ELSE W(s[i]) + SumW(s, i - 1)
+PeekVal == LET j == NxtFrom(Env, C.st.raw) IN IF IsEOF(Env, j) THEN "<EOF>" ELSE Toks[j].v
+TrNow == IF ctl = <<>> \/ Top.ph # "start" THEN <<>>
+         ELSE LET d == SumW(ctl, Len(ctl) - 1)  n == Top.n IN
+              IF Transparent(n) THEN <<>>
+              ELSE IF n.op = "union" THEN <<[d |-> d, k |-> "union", v |-> PeekVal], [d |-> d + 1, k |-> "alt", v |-> PeekVal]>>
+              ELSE <<[d |-> d, k |-> n.op, v |-> PeekVal]>>
+Emit(e) == evs' = evs \o e /\ trc' = trc \o TrNow
 
 \* --- the three context operations of context.go, as state transformers on `ctxs` ---
 BranchCtx(cs) == Append(cs, [st |-> cs[Len(cs)].st, pend |-> <<>>, nid0 |-> nid, dd |-> cs[Len(cs)].dd, de |-> cs[Len(cs)].de])
@@ -259,14 +275,14 @@ Terminate == /\ ~done /\ (ctl = <<>> \/ ret.k = "bug")
                             [] OTHER -> NoErr
                 IN /\ out' = o /\ eout' = (IF o = "err" THEN eo ELSE NoErr)
                    /\ (o = "err" => PrintT("ERR|" \o G.id \o "|" \o ToString(KK) \o "|" \o ToString(ii - 1) \o "|" \o ErrStr(eo)))
-             /\ done' = TRUE /\ UNCHANGED <<gi, ii, ki, ctl, ctxs, log, nid, ret, evs>>
+             /\ done' = TRUE /\ UNCHANGED <<gi, ii, ki, ctl, ctxs, log, nid, ret, evs, trc>>
              /\ PrintT("EVS|" \o G.id \o "|" \o ToString(KK) \o "|" \o ToString(ii - 1) \o "|" \o JoinEvs(evs, 1))
 
 MInit == /\ gi \in 1..Len(Cases) /\ ii \in 1..Len(Cases[gi].inputs) /\ ki \in 1..Len(Cases[gi].ks)
          /\ done = FALSE /\ out = ""
          /\ ctl = <<F([op |-> "prod", p |-> Cases[gi].prods[1].name], 0)>>
          /\ ctxs = <<[st |-> [raw |-> 1, cur |-> 0, fc |-> 0], pend |-> <<>>, nid0 |-> 1, dd |-> 0, de |-> NoErr]>>
-         /\ log = <<>> /\ nid = 1 /\ ret = NoRet /\ evs = <<>> /\ eout = NoErr
+         /\ log = <<>> /\ nid = 1 /\ ret = NoRet /\ evs = <<>> /\ eout = NoErr /\ trc = <<>>
 
 MNext == \/ LitRef \/ UserLeaf \/ SeqStart \/ SeqRet \/ AltStart \/ AltRet \/ GrpStart \/ GrpRet \/ CapStart \/ CapRet
          \/ ProdStart \/ ProdRet \/ NegStart \/ NegRet \/ LookStart \/ LookRet \/ Terminate
@@ -292,6 +308,9 @@ Terminates == <>done
 Recorded == G.inputs[ii].ev[ki]
 IsPrefixOf(a, b) == Len(a) <= Len(b) /\ \A j \in 1..Len(a) : a[j] = b[j]
 TraceConforms == IsPrefixOf(evs, Recorded) /\ (done /\ out # "bug" => evs = Recorded)
+\* the node-level trace the real parser printed for this case (participle.Trace)
+RecordedTr == G.inputs[ii].tr[ki]
+NodeTraceConforms == IsPrefixOf(trc, RecordedTr) /\ (done /\ out # "bug" => trc = RecordedTr)
 \* the error the real parser reported for this case, recorded as "t,u" (token index, 1 = UnexpectedTokenError), "-" when the
 \* parse succeeded and "?" when it could not be observed
 RecordedErr == G.inputs[ii].er[ki]
